@@ -171,6 +171,8 @@ class World:
                     self.unplug(link)
         if link is not None and not link.plugged:
             self.log('io', handle.port, kind, 'raise', 'unplugged')
+            if rec is not None:
+                rec['faults_fired'].append(['dead', kind, 'unplugged', self.io_ord])
             raise serial.SerialException("simulated: device disconnected")
         return f
 
@@ -292,12 +294,16 @@ class SimSerial:
             if w.op_rec is not None:
                 w.op_rec['io'].append(kind)
             w.log('io', self.port, kind, 'raise', 'PortNotOpenError')
+            if w.op_rec is not None:
+                w.op_rec['faults_fired'].append(['dead', kind, 'closed', w.io_ord])
             raise serial.serialutil.PortNotOpenError()
         if self.dead:
             w.io_ord += 1
             if w.op_rec is not None:
                 w.op_rec['io'].append(kind)
             w.log('io', self.port, kind, 'raise', 'dead handle')
+            if w.op_rec is not None:
+                w.op_rec['faults_fired'].append(['dead', kind, 'removed', w.io_ord])
             raise serial.SerialException("simulated: handle of a removed device")
         return w.next_io(self, kind)
 
